@@ -13,6 +13,7 @@ import (
 	"sort"
 	"strconv"
 	"strings"
+	"sync/atomic"
 	"unicode"
 	"unicode/utf8"
 )
@@ -44,7 +45,7 @@ type Re struct {
 	set  byteSet
 	subs []*Re
 	key  string
-	null int8 // 0 unknown, 1 nullable, -1 not
+	null int32 // 0 unknown, 1 nullable, -1 not (atomic: languages are shared between the discharge goroutines)
 }
 
 var (
@@ -242,8 +243,8 @@ func reRepeat(r *Re, min, max int) *Re {
 }
 
 func (r *Re) nullable() bool {
-	if r.null != 0 {
-		return r.null > 0
+	if v := atomic.LoadInt32(&r.null); v != 0 {
+		return v > 0
 	}
 	var n bool
 	switch r.op {
@@ -270,9 +271,9 @@ func (r *Re) nullable() bool {
 		n = !r.subs[0].nullable()
 	}
 	if n {
-		r.null = 1
+		atomic.StoreInt32(&r.null, 1)
 	} else {
-		r.null = -1
+		atomic.StoreInt32(&r.null, -1)
 	}
 	return n
 }
